@@ -19,6 +19,10 @@ def base_scenarios(rng, n):
     frames = server_frame(1, b'hello') + server_frame(9, b'pp') + server_frame(2, b'ab', fin=0) + server_frame(0, b'cd') + server_frame(8, close_payload(1000, b'bye'))
     out.append(Scenario(reads([sc.good_reply() + frames]) + [('wait', 1, ('eof',))], {3: [('send_text', ('s', [104]), True)], 4: [('send_binary', ('b', b'x'), True)]}, prate=0))
     out.append(Scenario(reads([sc.good_reply(), server_frame(1, b'a')]) + [('wait', 5, None), ('wait', 1, ('eof',))], {2: [('close', 1000, ('b', b'bye'))]}, prate=2))
+    # a silent peer: only a timeout can end these (close timeout after the application's close(), ping timeout) - also when the
+    # Close / the automatic Ping could not be written (faulted() injects a failure at every write index)
+    out.append(Scenario(reads([sc.good_reply()]) + [('wait', 5, None)] * 6, {2: [('close', 1000, ('b', b'bye'))]}, poll=5, prate=0, ctimeout=10))
+    out.append(Scenario(reads([sc.good_reply()]) + [('wait', 2, None)] * 10, {}, poll=2, prate=3, ptimeout=7, ctimeout=4))
     while len(out) < n:
         out.append(gen_core.gen_history(rng, n_steps=rng.randint(1, 5), timers=rng.random() < 0.4, faults=False))
     return out
@@ -66,8 +70,10 @@ def judge(res, js, line, real, what):
         res.failures.append(dict(cls=cls, what='%s [fault %s]' % (msg, what), input=line[-1500:], scenario=js, observed=[e[:70] for e in evs[-5:]]))
     if any(t.startswith('ESCAPED') for t in tk):
         return fail('an exception propagated out of the event iterator', 'escape')
+    if 'HANG' in tk:
+        return fail('the real code blocked (no progress in wall-clock time although all waiting is simulated)', 'hang')
     if 'INCOMPLETE' in tk:
-        return fail('the iterator is still waiting after the transport ended', 'hang')
+        return fail('the iterator is still waiting after the transport ended / after a timeout was due', 'hang')
     names = [e.split(':')[1] for e in evs]
     if not names or names[-1] not in ('connect_fail', 'disconnected'):
         return fail('no terminal event')
